@@ -18,8 +18,11 @@ def admission(path, keys, hdrs):
             k = (prov, cfg, ki, kalg, pub, h, sk)
             if route == 0:
                 r0[k] = (setkey_rc, rc)
-            elif route == 1:
+            elif route in (1, 3):
+                # callback sets key+alg / key from setkey(none,key) and alg from the callback: same effective pair as setkey(cfg, key)
                 others.append((k, rc, ev))
+            elif route == 2 and cfg == 0:
+                others.append((k, rc, ev))   # callback sets the key only: same as setkey(none, key)
     return r0, others
 
 
@@ -77,7 +80,7 @@ def run(tier, seed, replay):
         rep.sample(dict(program=e[1], policy=e[2], token=e[3], rc_with_cb=e[5], rc_without=e[6]))
     # admission clause: callback-selected key+alg vs setkey on the same cell
     bp = vf.driver("d_policy", "asan")
-    spec = ("prov=0,1;route=0,1;cfg=0..15;keys=none,oct:64,oct:16,rsa:2048,ec:P-256,ec:P-384,okp:Ed25519;kalg=-1,0,1,4,7,8,10,14,15;pub=0,1;"
+    spec = ("prov=0,1;route=0,1,2,3;cfg=0..15;keys=none,oct:64,oct:16,rsa:2048,ec:P-256,ec:P-384,okp:Ed25519;kalg=-1,0,1,4,7,8,10,14,15;pub=0,1;"
             "hdr=0..14,15,16,27;sig=0,1,2,3;op=v")
     pouts, crashes = vf.run_shards(bp, ["--arg1", spec, "--seed", seed], vf.NCPU, rd, tag="adm", timeout=3000)
     rep.crash_violations(crashes, prefix="admission:")
@@ -89,7 +92,8 @@ def run(tier, seed, replay):
                 continue
             cells += 1
             setkey_rc, rc0 = r0[k]
-            if rc == 0 and (setkey_rc != 0 or rc0 != 0):
+            eff_key = ev[10]
+            if rc == 0 and eff_key and (setkey_rc != 0 or rc0 != 0):   # a key-less checker (setkey refused, callback set no key) is not a callback-selected key
                 rep.violation("callback-selected-key-admitted:%s" % ("setkey-refuses" if setkey_rc else "setkey-rejects-token"),
                               "a key/alg selected by the callback was accepted where the same pair through setkey is refused", pm.describe(ev, keys, hdrs))
     rep.count("admission_cells_compared", cells)
